@@ -31,7 +31,8 @@ type Unit struct {
 var unitKinds = []string{"get", "getid", "rangeget", "search", "geti8", "geti16", "geti32", "geti64",
 	"scanfrom", "scanfromto", "iter", "stat", "string", "marshal", "protosize", "protomarshal",
 	// through index.SlimIndex (int64 offsets + a DataReader); weight 0 unless the values are 8-byte ints
-	"idxget", "idxrangeget"}
+	"idxget", "idxrangeget",
+	"getversion"}
 
 // index.SlimIndex embeds the trie BY VALUE, so an index over a subject is a
 // second struct that shares the subject's arrays. It is made once per instance,
@@ -345,6 +346,8 @@ func (u *Unit) run(st *trie.SlimTrie, y func()) (out string) {
 		b, err := st.Marshal()
 		sb.digest(b)
 		sb.err(err)
+	case "getversion":
+		sb.s(st.GetVersion())
 	case "protosize":
 		sb.i(int64(proto.Size(st)))
 	case "protomarshal":
@@ -526,7 +529,7 @@ func genUnit(r *Rng, qs [][]byte, mix UnitMix) Unit {
 		"get": 10, "getid": 5, "rangeget": 8, "search": 8,
 		"geti8": 1, "geti16": 1, "geti32": 1, "geti64": 1,
 		"scanfrom": 1, "scanfromto": 1, "iter": 1,
-		"stat": 2, "string": 0, "marshal": 1, "protosize": 2, "protomarshal": 1,
+		"stat": 2, "string": 0, "marshal": 1, "protosize": 2, "protomarshal": 1, "getversion": 1,
 	}
 	if mix.Complete {
 		w["scanfrom"], w["scanfromto"], w["iter"] = 8, 6, 10
@@ -560,7 +563,7 @@ func genUnit(r *Rng, qs [][]byte, mix UnitMix) Unit {
 		lim = 6
 	}
 	switch u.Kind {
-	case "stat", "string", "marshal", "protosize", "protomarshal":
+	case "stat", "string", "marshal", "protosize", "protomarshal", "getversion":
 	case "scanfrom":
 		u.Q, u.Incl, u.WithVal, u.Limit = pick(), r.Bool(), r.Bool(), r.Range(1, lim)
 		if r.Chance(0.3) {
